@@ -13,6 +13,7 @@ typedef struct {
     uint64_t mask[RF_MAXC];              /* bit r set => row r null (opt columns) */
     int npages[RF_MAXC]; int page_levels[RF_MAXC][8];   /* 0 pages => single page */
     int uniform_page[RF_MAXC];           /* > 0: pages of this many level entries each (any number of pages) */
+    unsigned plain_pages[RF_MAXC];       /* dictionary chunks: bit p => page p is PLAIN */
     int enc[RF_MAXC];                    /* ENC_PLAIN / ENC_PLAIN_DICT / ENC_RLE_DICT / ... */
     int ctx[RF_MAXC];                    /* nesting context of the leaf (RF_CTX_*); 0 = flat, repetition from .opt */
     const int16_t* defs[RF_MAXC]; const int16_t* reps[RF_MAXC];   /* explicit levels (N entries) for nested contexts */
